@@ -513,6 +513,36 @@ def unit_gw_multi(ctx):
         if rc != 0:
             return {"lines": [], "error": "cmp-gw failed: " + out[-2000:]}
     lines = open(res).read().splitlines()
+    # a session that diverges from the single-session model while running next to others, but agrees with
+    # it when the same history runs alone on the same code, was influenced by the other sessions: that
+    # group of histories is a concrete failing input of C15
+    import re
+    div = {}
+    for l in lines:
+        m = re.match(r"MISMATCH .* h=(\d+) e=(\d+) :: (.*)", l)
+        if m:
+            div.setdefault(int(m.group(1)), l)
+    if div:
+        solo_h, solo_t, solo_r = hist + ".solo", trace + ".solo", res + ".solo"
+        with open(hist) as f, open(solo_h, "w") as g:
+            keep = False
+            for line in f:
+                if line.startswith("H "):
+                    keep = int(line.split()[1]) in div
+                if keep:
+                    g.write(line)
+        err = run_restarting(ctx.bin("drv_gw.test"), solo_h, solo_t, "drv_gw")
+        if not err:
+            core.run("%s cmp-gw %s %s > %s" % (core.DRIVER, solo_h, solo_t, solo_r))
+            solo_div = set()
+            for l in open(solo_r).read().splitlines():
+                m = re.match(r"MISMATCH .* h=(\d+) ", l)
+                if m:
+                    solo_div.add(int(m.group(1)))
+            for h, l in sorted(div.items()):
+                if h not in solo_div:
+                    lines.append("FAIL C15 differs-from-solo-run h=%d (group of histories %d..%d) :: alone: agrees with the model; "
+                                 "concurrently: %s" % (h, h - h % 3, h - h % 3 + 2, l[:300]))
     # any failure of a single-session property observed in a concurrent session is a C15 failure too
     lines = [l for l in lines if not l.startswith("FAIL ")] + \
             ["FAIL C15 in-concurrent-session " + l[5:] for l in lines if l.startswith("FAIL ") and
